@@ -12,6 +12,7 @@ AlphaQuick == <<
   U(4, 5, "ok", "fail", "none", 14),
   U(4, 5, "ok", "invalid", "none", 15),
   U(4, 5, "ok", "mismatch", "none", 16),
+  U(4, 5, "ok", "absent", "none", 26),
   U(4, 5, "ok", "ok", "late", 17),
   U(5, 4, "ok", "ok", "none", 18),
   U(4, 4, "ok", "ok", "none", 21),
@@ -33,6 +34,7 @@ AlphaThorough == AlphaQuick \o <<
   R(1, 2, 4, "ok", "fail", "none", 35),
   R(2, 3, 5, "ok", "ok", "in", 36),
   R(1, 1, 4, "ok", "ok", "none", 37),
+  R(1, 2, 4, "ok", "absent", "none", 38),
   D(1, "ok", "bad", "none"),
   D(2, "bad", "ok", "none")
 >>
